@@ -226,6 +226,7 @@ def build(active_known=frozenset()):
     pack.assume("under contract: StreamReader, _with_loc (span tagging), _read_reader_macro (dispatch branch), the prefix readers (quote, deref, unquote, syntax-quote, "
                 "metadata, #_), _read_comment, _consume_whitespace, _read_reader_conditional_macro, _read_coll; NOT under contract: the map / number / string / symbol / "
                 "keyword / character / regex / reader-conditional readers, read() itself, totality and 'SyntaxError only' for the reader as a whole")
+    pack.assume("_read_unicode_escape_seq: the single pushback it performs is assumed not to be refused (window of at least three characters, none pushed back on entry)")
     pack.assume("_read_next_consuming_comment, the readers behind the # dispatch table and the function decorated by _with_loc are used by contract (induction over the "
                 "nesting depth): they move the cursor forward, keep the stream reader well-formed, return a form (the eof value exactly when nothing but whitespace and "
                 "comments is left) or raise a syntax error")
@@ -1042,6 +1043,174 @@ def add_prefix_readers(pack):
                   "and what the outer function makes of it is returned", walk_post)
         c.replay(lambda m, ctx, ob: WALK_REPLAY)
         c.replay_without_model = True
+
+
+    # ---- string literals: only syntax errors, and "the text ended inside the literal" is the incomplete kind
+    HEXVAL = z3.Function("hex_value", z3.StringSort(), z3.IntSort())
+    CHR = z3.Function("chr_of", z3.IntSort(), z3.StringSort())
+    JOINED = z3.Function("joined", V.ValSeq, z3.StringSort())
+
+    def str_models(eng):
+        import builtins as _b
+
+        def int16(e, s, a, k):
+            if not (len(a) == 1 and k.get("base") == 16):
+                raise Unsupported("int() other than int(<digits>, base=16)")
+            n = HEXVAL(V.Val.s(e.lift(a[0], s)))
+            s.assume(n >= 0)  # (the argument consists of hexadecimal digits only: the loop appends nothing else)
+            yield s, SV(V.mk_int(n))
+
+        eng.models[id(_b.int)] = Model("int(<hex digits>, base=16)", int16)
+
+        def chr_(e, s, a, k):
+            n = V.Val.i(e.lift(a[0], s))
+            ok, big, huge = s, s.copy(), s.copy()
+            ok.assume(n >= 0, n <= 0x10FFFF)
+            if e.feasible(ok):
+                yield ok, SV(V.mk_str(CHR(n)))
+            big.assume(n > 0x10FFFF, n <= 0x7FFFFFFF)
+            if e.feasible(big):
+                yield big, Raise(Exc(ValueError, ("chr() arg not in range(0x110000)",)))
+            huge.assume(n > 0x7FFFFFFF)
+            if e.feasible(huge):
+                yield huge, Raise(Exc(OverflowError, ("Python int too large to convert to C int",)))
+
+        eng.models[id(_b.chr)] = Model("chr (ValueError / OverflowError beyond U+10FFFF)", chr_)
+
+        def join(e, s, a, k):
+            lst_ = a[1]
+            if not (isinstance(lst_, SV) and lst_.hint is list):
+                raise Unsupported("str.join of something other than a list")
+            j_ = JOINED(z3.Select(s.lists, V.Val.a(lst_.t)))
+            s.ghost["joined"] = j_
+            yield s, SV(V.mk_str(j_))
+
+        eng.method_models[(str, "join")] = Model("''.join(list) (opaque)", join)
+        eng.method_models[(str, "__len__")] = Model("len(str)", lambda e, s, a, k: iter([(s, SV(V.mk_int(z3.Length(V.Val.s(a[0].t)))))]))
+
+    def uni_setup(eng, st):
+        psetup(eng, st)
+        str_models(eng)
+
+        def pushback_ok(e, s, a, k):
+            # assumed here: the pushback window has room for the one character this function pushes back (it has at least
+            # three entries - the default is five - and nothing is pushed back when a string literal is entered); the
+            # general contract of pushback, which may refuse, is proved above
+            r = e.lift(a[0], s)
+            p = pos(s, r)
+            e.havoc_heap(s, ["_idx"])
+            s.assume(WF(e, s, r), pos(s, r) == p - 1)
+            yield s, None
+
+        eng.method_models[(SR, "pushback")] = Model("StreamReader.pushback (room for one character assumed)", pushback_ok)
+
+    c = pack.contract("basilisp.lang.reader:_read_unicode_escape_seq")
+    c.param("ctx", OBJ(RC))
+    c.setup(uni_setup)
+    c.requires("the stream reader is well-formed and has read at least one character before the escape letter",
+               lambda a: z3.And(WF(a.eng, a.pre.st, reader_of(a)), pos(a.pre.st, reader_of(a)) >= 1))
+    c.raises(rd.SyntaxError)
+
+    def uni_inv(ctx):
+        st, pre = ctx.st, ctx.entry.st
+        r = fld(pre, ctx["ctx"], "_reader")
+        return [
+            ("the stream reader stays well-formed and is still the context's reader", z3.And(WF(ctx.eng, st, r), fld(st, ctx["ctx"], "_reader") == r, ctx["reader"] == r)),
+            ("the cursor has not moved back", pos(st, r) >= pos(pre, r)),
+        ]
+
+    c.loop(0, invariant=uni_inv, frame=["_idx"], lists=True, ghost=("n_read",), aux=("dqv", "dqn"))
+    def uni_raise(a):
+        j_ = a.post.st.ghost.get("joined")
+        if j_ is None:
+            return z3.BoolVal(False)
+        short = z3.And(z3.Length(j_) != 4, z3.Length(j_) != 8)
+        return z3.Implies(z3.And(short, CH(pos(a.post.st, reader_of(a)) + 1) == V.mk_str("")), z3.BoolVal(a.exc.pycls is not None and issubclass(a.exc.pycls, rd.UnexpectedEOFError)))
+
+    c.ensures_on_raise("when the escape's digits are cut short by the end of the text (fewer than 4, or 5 to 7, and then nothing) the error is UnexpectedEOFError "
+                       "(incomplete), not a plain syntax error", uni_raise)
+    c.replay(lambda m, ctx, ob: STRLIT_REPLAY)
+    c.replay_without_model = True
+
+    def strlit_setup(eng, st):
+        psetup(eng, st)
+        str_models(eng)
+
+        def uni(e, s, args, k):
+            # by contract (above): consumes at least the escape letter, keeps the reader well-formed, returns a character
+            # or raises a syntax error (UnexpectedEOFError when the text ended inside the escape)
+            ctx_ = e.lift(args[0], s)
+            r = fld(s, ctx_, "_reader")
+            p = pos(s, r)
+            s.ghost["n_read"] = z3.Int(V.fresh_name("n_read"))
+            e.havoc_heap(s, ["_idx"])
+            for nm in ("dqv", "dqn"):
+                if nm in s.aux:
+                    s.aux[nm] = z3.Const(V.fresh_name(nm), s.aux[nm].sort())
+            s.assume(WF(e, s, r), pos(s, r) >= p)
+            s2, s3 = s.copy(), s.copy()
+            yield s, SV(V.mk_str(z3.String(V.fresh_name("unichar"))))
+            s2.ghost["inner_exc"] = "eof"
+            yield s2, Raise(Exc(rd.UnexpectedEOFError, ("Unexpected EOF in unicode escape",), note="the text ended inside the escape"))
+            s3.ghost["inner_exc"] = "syntax"
+            yield s3, Raise(Exc(rd.SyntaxError, ("malformed unicode escape",), note="malformed escape"))
+
+        eng.models[id(rd._read_unicode_escape_seq)] = Model("_read_unicode_escape_seq (by contract)", uni)
+
+    c = pack.contract("basilisp.lang.reader:_read_str")
+    c.label = "end of text inside the literal"
+    c.param("ctx", OBJ(RC)).param("raw_string", T(lambda v: V.is_bool(v), None, "bool"))
+    c.setup(strlit_setup)
+    c.requires("the stream reader is well-formed", lambda a: WF(a.eng, a.pre.st, reader_of(a)))
+    c.raises(rd.SyntaxError)
+
+    def str_inv(ctx):
+        st, pre = ctx.st, ctx.entry.st
+        r = fld(pre, ctx["ctx"], "_reader")
+        return [
+            ("the stream reader stays well-formed and is still the context's reader", z3.And(WF(ctx.eng, st, r), fld(st, ctx["ctx"], "_reader") == r, ctx["reader"] == r)),
+            ("the cursor has not moved back", pos(st, r) >= pos(pre, r)),
+        ]
+
+    c.loop(0, invariant=str_inv, frame=["_idx"], lists=True, ghost=("n_read",), aux=("dqv", "dqn"))
+
+    def str_raise(a):
+        post = a.post.st
+        is_eof = a.exc.pycls is not None and issubclass(a.exc.pycls, rd.UnexpectedEOFError)
+        if post.ghost.get("inner_exc") == "eof":
+            return z3.BoolVal(is_eof)
+        if post.ghost.get("inner_exc") == "syntax":
+            return z3.BoolVal(True)
+        return z3.Implies(CH(pos(post, reader_of(a))) == V.mk_str(""), z3.BoolVal(is_eof))
+
+    c.ensures_on_raise("when the text ends inside the literal - also right after a backslash, or inside a unicode escape - the error is UnexpectedEOFError "
+                       "(incomplete: the REPL keeps reading), never a plain syntax error", str_raise)
+    c.replay(lambda m, ctx, ob: STRLIT_REPLAY)
+    c.replay_without_model = True
+
+
+STRLIT_REPLAY = r'''
+from basilisp.lang import reader
+bad = []
+def kind(text):
+    try:
+        list(reader.read_str(text))
+        return "ok"
+    except reader.UnexpectedEOFError:
+        return "incomplete"
+    except reader.SyntaxError:
+        return "malformed"
+    except BaseException as e:
+        return type(e).__name__
+for text, want in (('"abc', "incomplete"), ('"ab\\', "incomplete"), ('"ab\\u12', "incomplete"), ('"ab\\u', "incomplete"), ('"ab\\q"', "malformed"), ('"\\u12 "', "malformed"),
+                   ('"\\uFFFFFFFF"', "malformed"), ('"\\u00110000"', "malformed"), ('"\\u0041"', "ok"), ('"a\\nb"', "ok")):
+    got = kind(text)
+    if got != want:
+        bad.append("%r is %s, expected %s" % (text, got, want))
+for line in bad[:10]:
+    print(line)
+print("REPRODUCED" if bad else "not reproduced")
+'''
 
 
 WALK_REPLAY = r'''
